@@ -636,11 +636,9 @@ impl FixtureDatabase {
         self.collect_imported_modules(fixture_name, file_path, &mut visited, &mut modules);
 
         let definitions = self.definitions.get(fixture_name)?;
+        // (per module what its namespace holds: an overwritten definition is not imported)
         modules.iter().find_map(|module| {
-            definitions
-                .iter()
-                .filter(|def| def.file_path == *module && filter(def))
-                .max_by_key(|def| def.line)
+            self.live_definition_in_file(&definitions, module, &filter)
                 .cloned()
         })
     }
